@@ -43,8 +43,11 @@ class HistoryProp(Prop):
         if not any(files.values()):
             files[sorted(files)[0]] = gen.join_lines([gen.new_line(rng, idg) for _ in range(4)])
         mode = rng.choice(self.modes)
+        init = {"files": files}
+        if rng.random() < 0.25:
+            init["exec_files"] = [rng.choice(sorted(files))]      # one of the files is an executable script (100755)
         return {"world": {"mode": mode}, "sessions": ["s%d" % (k + 1) for k in range(n_sessions)],
-                "cfg": cfg, "init": {"files": files}, "next_id": idg.next_id}
+                "cfg": cfg, "init": init, "next_id": idg.next_id}
 
     def gates(self):
         import os
